@@ -324,7 +324,9 @@ pub fn run(ctx: &mut Ctx) {
           instr.push(0xc1); // a16 = 0xC142 (work RAM) / jump target 0xC142
         }
         let block = block_of(&instr);
-        for (pi, &at) in [0x0150u16, 0x4100].iter().enumerate() {
+        // third placement: the instruction straddles the 0x3FFF/0x4000 bank boundary
+        let places: &[u16] = if info.len >= 2 { &[0x0150, 0x4100, 0x3fff] } else { &[0x0150, 0x4100] };
+        for (pi, &at) in places.iter().enumerate() {
           m.p.use_trampoline = use_trampoline_all || pi == 1;
           if !m.prepare(at, &block) {
             continue;
